@@ -91,6 +91,14 @@ def one_op(t, view, k, op, out, prefix, forks=None):
                 out.append('%d.%s=%s' % (k, prefix, status(lambda: to_val(t, f))))
             else:
                 out.append('%d.%s=err' % (k, prefix))
+        elif o == 'eqother':
+            def eqother():
+                # a value of the same type spelled separately (other class objects) that holds nothing but the root, compared
+                # with this view: equality is a comparison of roots
+                T2 = mk_type(t, fresh=True)
+                other = T2.view_from_backing(RootNode(bytes(view.hash_tree_root())))
+                return (other == view) and (view == other)
+            out.append('%d.%s=%s' % (k, prefix, status(eqother)))
         elif o == 'eqself':
             out.append('%d.%s=%s' % (k, prefix, status(lambda: view == view.copy())))
         elif o == 'vbl':
